@@ -119,8 +119,12 @@ def replay_file(path, timeout=300):
     """re-run a counterexample on the real code in a fresh process; returns (reproduced: bool|None, text)"""
     env = dict(os.environ)
     env['PYTHONPATH'] = os.environ.get('VERIF_REPO', '/repo') + ':' + VERIF
-    p = subprocess.run([sys.executable, '-m', 'vf.replay', path], cwd=VERIF, env=env, capture_output=True, text=True,
-                       timeout=timeout)
+    try:
+        p = subprocess.run([sys.executable, '-m', 'vf.replay', path], cwd=VERIF, env=env, capture_output=True,
+                           text=True, timeout=timeout)
+    except subprocess.TimeoutExpired:
+        # the real code did not return on the counterexample's inputs: reproduces a reported hang, nothing else
+        return 'hang', 'replay did not terminate within %d s' % timeout
     out = p.stdout.strip().splitlines()
     last = out[-1] if out else ''
     if p.returncode == 1 and last.startswith('REPRODUCED'):
@@ -214,8 +218,10 @@ def main_run(pid, tier, specs, meta, lemma_results=None):
             harness_errors.append((d['name'], d['harness_error']))
         for i, fl in enumerate(d['failures']):
             path = write_replay(pid, d['spec'], fl, i)
-            rep, text = replay_file(path)
+            rep, text = replay_file(path, timeout=(90 if any('Hang' in c for c in fl['claims']) else 300))
             fl['replay'] = path
+            if rep == 'hang':
+                rep = True if any('Hang' in c for c in fl['claims']) else None
             fl['reproduced'] = rep
             if rep is True:
                 k = None
@@ -274,6 +280,10 @@ def main_run(pid, tier, specs, meta, lemma_results=None):
     os.makedirs(EVID, exist_ok=True)
     with open(os.path.join(EVID, '%s.json' % pid), 'w') as f:
         json.dump(ev, f, indent=1)
+    if os.environ.get('VERIF_DUMP_FUNCS'):
+        # development aid (tools/gen_shard_files.py): which repository modules executed in which unit
+        with open(os.environ['VERIF_DUMP_FUNCS'], 'w') as f:
+            json.dump({d['name']: sorted(set(x.split(':')[0] for x in d.get('functions', []))) for d in results}, f)
     print('%s %s: units=%d paths=%d obligations=%d discharged=%d queries=%d solver=%.1fs wall=%.1fs' % (
         pid, tier, len(results), tot('paths'), tot('obligations'), tot('discharged'), tot('queries'),
         tot('solver_s'), wall))
